@@ -107,9 +107,11 @@ def generate(rng, tier, index):
     probe = []
     um = models[units[0]]
     pu = int(units[0]) if not scn.get('single', True) else 1
+    seen = set(bytes.fromhex(r['pdu']) for r in good)
     for j in range(2):
         p = sc.gen_valid(rng, um, uniq, fcs=[3, 6, 16, 1, 5, 3])
-        if p:
+        if p and p not in seen:
+            seen.add(p)
             probe.append({'u': pu, 'tid': 7000 + j, 'pdu': p.hex(), 'at': round(t_end_hostile + (j + 1) * max(sep, 0.01) * 2, 6),
                           'join': False, 'tag': 'valid'})
     for r in good:
